@@ -173,6 +173,38 @@ pub fn run(o: &Opts) -> Report {
         let model = driver_batch(&o.driver, &reqs, o.par);
         for ((req, m), i) in reqs.iter().zip(model.iter()).zip(impls.iter()) { if m != i { rep.disagree("parse", req, m, i); } }
     }
+    {
+        use crate::pcorr::*;
+        // a value inside the parser's language is not rejected: an ALIAS of a possible value spelt in another case under
+        // ignore_case
+        let mka = |ic: bool| { let mut c = CmdS { name: "prog".into(), ..Default::default() };
+            c.args.push(ArgS { id: "mode".into(), long: Some("mode".into()), action: Some("set"), ignore_case: ic,
+                vp: Some(VpS::Possible(vec![("fast".into(), vec!["quick".into(), "Q".into()]), ("slow".into(), vec![])])), ..Default::default() });
+            c };
+        let mut ok: Vec<(CmdS, Vec<Vec<u8>>, Expect)> = vec![]; let mut bad = vec![];
+        for v in ["QUICK", "Quick", "q", "FAST", "quick", "Q"] { ok.push((mka(true), bv(&["prog", "--mode", v]), Box::new(move |m| want_occs(m, &[], "mode", &[&[v]])))); }
+        for v in ["quick", "Q", "fast"] { ok.push((mka(false), bv(&["prog", "--mode", v]), Box::new(move |m| want_occs(m, &[], "mode", &[&[v]])))); }
+        for v in ["QUICK", "q", "FAST"] { bad.push((mka(false), bv(&["prog", "--mode", v]), clap::error::ErrorKind::InvalidValue)); }
+        for v in ["quic", "fastt", ""] { bad.push((mka(true), bv(&["prog", "--mode", v]), clap::error::ErrorKind::InvalidValue)); }
+        run_expect(&mut rep, o, "fault-free-line-rejected", ok);
+        run_expect_kind(&mut rep, o, "value-outside-the-language-accepted", bad);
+        // real crate only: HIDDEN possible values (and their aliases) belong to the language
+        {
+            use clap::builder::PossibleValue;
+            use clap::{Arg, ArgAction, Command};
+            let mk = || Command::new("prog").arg(Arg::new("color").long("color").action(ArgAction::Set)
+                .value_parser([PossibleValue::new("auto"), PossibleValue::new("tty").hide(true).alias("term"), PossibleValue::new("never")]));
+            for (v, accept) in [("auto", true), ("tty", true), ("term", true), ("never", true), ("TTY", false), ("tt", false)] {
+                let key = format!("hidden-possible-value argv=[prog, --color, {v}]");
+                rep.case(&key, true); rep.count("shape:hidden-possible-value");
+                match std::panic::catch_unwind(|| mk().try_get_matches_from(["prog", "--color", v]).map(|m| m.get_one::<String>("color").cloned()).map_err(|e| (e.kind(), e.use_stderr(), e.exit_code()))) {
+                    Err(_) => rep.oracle_fail("panic", &key, "panicked"),
+                    Ok(Ok(got)) => { if !accept { rep.oracle_fail("value-outside-the-language-accepted", &key, &format!("{got:?}")); } else if got.as_deref() != Some(v) { rep.oracle_fail("fault-free-line-rejected", &key, &format!("stored {got:?}")); } }
+                    Ok(Err((k, stderr, code))) => { if accept { rep.oracle_fail("fault-free-line-rejected", &key, &format!("{k:?}")); } else if k != clap::error::ErrorKind::InvalidValue || !stderr || code != 2 { rep.oracle_fail("rejection-misclassified", &key, &format!("{k:?} stderr={stderr} exit={code}")); } }
+                }
+            }
+        }
+    }
     crate::pcorr::run_generic(&mut rep, o, 0xC10);
     crate::usage::run_err(&mut rep, o);
     rep
